@@ -583,7 +583,7 @@ impl Engine for C12 {
         to_outcome(check_text(text, MAX_UNCACHED_WEIGHT), None, case.clone())
     }
     fn rule(&self) -> String {
-        "token lists: every sequence of <= L tokens over the full alphabet (54) and of L+1..=L' over the reduced grammar alphabet, the corpus and all its 1-deviation token mutants, 40 nesting / chain / digit families (closed, unclosed and mismatched brackets). Each list is parsed by parse_program through Context::new(tokens) and Context::new(tokens).without_cache() (the latter only when the static nesting weight is <= 6, the uncached parser being exponential in it): identical pre-order dump (depth, node kind / token kind, span) and error list; with the memo table reads <= 64·n + 64; per family reads(d), d = 1..=200 (chains also 1000 and 10000, thorough 500..10000), has constant first differences. states = memoised (cursor, production) pairs, transitions = token reads with the memo table, both summed over all cases (hook Context::verif_counters); a family counts as one case".into()
+        "token lists: every sequence of <= L tokens over the full alphabet (54) and of L+1..=L' over the reduced grammar alphabet, the corpus and all its 1-deviation token mutants, 42 nesting / chain / digit families (closed, unclosed and mismatched brackets). Each list is parsed by parse_program through Context::new(tokens) and Context::new(tokens).without_cache() (the latter only when the static nesting weight is <= 6, the uncached parser being exponential in it): identical pre-order dump (depth, node kind / token kind, span) and error list; with the memo table reads <= 64·n + 64; per family reads(d), d = 1..=200 (chains also 1000 and 10000, thorough 500..10000), has constant first differences. states = memoised (cursor, production) pairs, transitions = token reads with the memo table, both summed over all cases (hook Context::verif_counters); a family counts as one case".into()
     }
     fn case_budget_ms(&self) -> u64 {
         // the flat programs take seconds on a busy machine
